@@ -513,7 +513,7 @@ func genBoundary(emit func(*sessCase)) {
 func sessionMain(args []string) error {
 	fs := flag.NewFlagSet("session", flag.ExitOnError)
 	seed := fs.Uint64("seed", 1, "")
-	mode := fs.String("mode", "random", "random|timed|exhaustive|boundary|live|conc")
+	mode := fs.String("mode", "random", "random|timed|exhaustive|boundary|live|conc|race")
 	n := fs.Int("n", 500, "number of random histories")
 	length := fs.Int("len", 4, "history length (exhaustive)")
 	maxOps := fs.Int("maxops", 25, "max ops per random history")
@@ -532,6 +532,8 @@ func sessionMain(args []string) error {
 		return sessionLive(out, *seed, *n, *bin, *par)
 	case "conc":
 		return c08Conc(out, *seed, *n)
+	case "race":
+		return c08Race(out, *seed, *n, *tick, *par)
 	case "exhaustive":
 		genExhaustive(*length, func(c *sessCase) { runSessCase(c); out.Put(c) })
 		return nil
